@@ -2,4 +2,4 @@ package main
 
 import "verifharness/c01"
 
-func init() { runners["C01"] = c01.Run }
+func init() { runners["C01"] = c01.Run; runners["C01W"] = c01.Worker }
